@@ -1,8 +1,17 @@
 //! C19: saving reports sink failures and ignores sink chunking.
-//! Case: (case (cfg table|stream plain|inc) <doc> <prev xHEX> <full xHEX> <cut> (chunks n...) <job>)
-//!   job ::= (ref)                                     -> (ref <rc> <full> <state> (ids n...) <cut>)   [generation phase only]
+//! Case: (case (cfg table|stream plain|inc) <doc> <prev xHEX> <full> <cut> (chunks n...) <job> [(pad (id len seed)...)])
+//!   full = xHEX or (f xHEX xHEX ...) (concatenation; the model's parser is quadratic in the length of an atom)
+//!   pad  = stream objects (id 0) of len pseudo-random printable bytes added to <doc> (kept out of the case text for the same reason)
+//!   job ::= (ref)                                     -> (ref <rc> <full> <state> (ids n...) <cut> (sizes n...))   [generation phase only]
+//!                                                        sizes = the write_all buffers the save path issues, measured with a recording sink
 //!         | (one call|pos (script r...))              -> (res <rc> <delivered> <state> <resave same bytes 0/1>)
 //!         | (sweep (script r...) <hard> lo hi step)   -> (sweep (<rc> <delivered length> <max_id> <Size> <resave same>) ...)
+//!         | (path file|dir|full|(limit p) (sizes n...)) -> (pres <rc> <file content> <state> <resave same bytes 0/1>)
+//!         | (psweep (sizes n...) (at p...))           -> (psweep (<rc> <file length> <max_id> <Size> <resave same>) ...)
+//!           the REAL Document::save(path) / IncrementalDocument::save(path): a healthy temporary file; a path that is a
+//!           directory (File::create fails); /dev/full (every write fails with ENOSPC); a temporary file under
+//!           RLIMIT_FSIZE = p (the kernel takes p bytes -- with a short write at the boundary -- and fails every later
+//!           write with EFBIG).  `sizes` is read by the model only.
 //!   cfg carries, after the two mode words, the state before the save (max_id, trailer, written ids) for the model.
 //!   r ::= (a k) | i | z | (f kind)
 //! The sinks implement std::io::Write from the script (call-driven: one answer per `write` call;
@@ -14,7 +23,10 @@
 //!   when save returns an error although the sink never failed,
 //!   when the delivered bytes are not a prefix of the reference output,
 //!   when a re-save of the same document object to a healthy sink fails or does not load back to
-//!   the content the reference output loads to.
+//!   the content the reference output loads to;
+//!   for save(path): FAIL when it returns Ok but the file does not hold the complete output (or the device
+//!   refused a write), when it returns an error although the device took everything, when the error is not the
+//!   device's, when the file content is not a prefix of the complete output; the same re-save check follows.
 use lopdf::xref::XrefType;
 use lopdf::{Dictionary, Document, IncrementalDocument, Object};
 use lvh::conv::*;
@@ -29,7 +41,7 @@ enum Resp {
     Fail(ErrorKind),
 }
 
-const KINDS: [(&str, ErrorKind); 10] = [
+const KINDS: [(&str, ErrorKind); 12] = [
     ("other", ErrorKind::Other),
     ("brokenpipe", ErrorKind::BrokenPipe),
     ("denied", ErrorKind::PermissionDenied),
@@ -40,6 +52,8 @@ const KINDS: [(&str, ErrorKind); 10] = [
     ("oom", ErrorKind::OutOfMemory),
     ("invaliddata", ErrorKind::InvalidData),
     ("storagefull", ErrorKind::StorageFull),
+    ("isadir", ErrorKind::IsADirectory),
+    ("filetoolarge", ErrorKind::FileTooLarge),
 ];
 
 fn kind_of(x: &Sx) -> Option<ErrorKind> {
@@ -199,6 +213,12 @@ impl Target {
             Target::Inc(d) => d.save_to(w),
         }
     }
+    fn save_path(&mut self, p: &std::path::Path) -> std::io::Result<()> {
+        match self {
+            Target::Plain(d) => d.save(p).map(|_| ()),
+            Target::Inc(d) => d.save(p).map(|_| ()),
+        }
+    }
     fn doc(&self) -> &Document {
         match self {
             Target::Plain(d) => d,
@@ -210,11 +230,45 @@ impl Target {
     }
 }
 
-fn build(cfg: &Sx, doc: &Sx, prev: &[u8]) -> Option<Target> {
+fn bytes_of_parts(x: &Sx) -> Option<Vec<u8>> {
+    if x.tag() == Some("f") {
+        let mut out = vec![];
+        for p in x.args() {
+            out.extend_from_slice(&p.as_bytes()?);
+        }
+        Some(out)
+    } else {
+        x.as_bytes()
+    }
+}
+
+const PAD_ALPHABET: &[u8] = b"abcdefghijklmnopqrstuvwxyz0123456789 ()<>[]/%\\\n\r\x00\xff";
+
+fn pad_content(len: u64, seed: u64) -> Vec<u8> {
+    let mut st = seed.wrapping_mul(6364136223846793005).wrapping_add(1442695040888963407);
+    (0..len)
+        .map(|_| {
+            st = st.wrapping_mul(6364136223846793005).wrapping_add(1442695040888963407);
+            PAD_ALPHABET[((st >> 33) % PAD_ALPHABET.len() as u64) as usize]
+        })
+        .collect()
+}
+
+fn build(cfg: &Sx, doc: &Sx, prev: &[u8], pad: Option<&Sx>) -> Option<Target> {
     let a = cfg.args();
     let stream = a.first()?.is_id("stream");
     let inc = a.get(1)?.is_id("inc");
     let mut d = doc_of_sx(doc)?;
+    if let Some(pad) = pad {
+        for e in pad.args() {
+            let (id, len, seed) = match e {
+                Sx::L(v) if v.len() == 3 => (v[0].as_u64()?, v[1].as_u64()?, v[2].as_u64()?),
+                _ => return None,
+            };
+            let content = pad_content(len, seed);
+            d.objects.insert((id as u32, 0), Object::Stream(lopdf::Stream::new(Dictionary::new(), content)));
+        }
+    }
     if !inc {
         d.reference_table.cross_reference_type =
             if stream { XrefType::CrossReferenceStream } else { XrefType::CrossReferenceTable };
@@ -320,14 +374,224 @@ fn one_run(base: &Target, full: &[u8], ref_content: &Option<Result<Sx, String>>,
     Outcome { rc: rc_sx(&r), delivered: sink.data, state: after, max_id, size, resave_same, verdict }
 }
 
+// ---------------------------------------------------------------------------------------------
+// save(path): real files whose device fails
+// ---------------------------------------------------------------------------------------------
+/// a perfect sink that records the length of every `write` it receives: with it each `write_all` of the
+/// save path arrives as exactly one `write`, so the lengths are the buffers of the write_all calls
+struct RecordingSink {
+    data: Vec<u8>,
+    sizes: Vec<usize>,
+}
+impl Write for RecordingSink {
+    fn write(&mut self, buf: &[u8]) -> std::io::Result<usize> {
+        self.sizes.push(buf.len());
+        self.data.extend_from_slice(buf);
+        Ok(buf.len())
+    }
+    fn flush(&mut self) -> std::io::Result<()> {
+        Ok(())
+    }
+}
+
+#[cfg(target_os = "linux")]
+mod fsize {
+    #[repr(C)]
+    struct Rlimit {
+        cur: u64,
+        max: u64,
+    }
+    extern "C" {
+        fn getrlimit(resource: i32, rlim: *mut Rlimit) -> i32;
+        fn setrlimit(resource: i32, rlim: *const Rlimit) -> i32;
+        fn signal(signum: i32, handler: usize) -> usize;
+    }
+    const RLIMIT_FSIZE: i32 = 1;
+    const SIGXFSZ: i32 = 25;
+    const SIG_IGN: usize = 1;
+    /// soft RLIMIT_FSIZE = p while the guard lives (SIGXFSZ ignored, so that the write returns EFBIG)
+    pub struct Guard {
+        old_cur: u64,
+        max: u64,
+    }
+    impl Guard {
+        pub fn set(p: u64) -> Option<Guard> {
+            unsafe {
+                signal(SIGXFSZ, SIG_IGN);
+                let mut old = Rlimit { cur: 0, max: 0 };
+                if getrlimit(RLIMIT_FSIZE, &mut old) != 0 || p > old.max {
+                    return None;
+                }
+                let new = Rlimit { cur: p, max: old.max };
+                if setrlimit(RLIMIT_FSIZE, &new) != 0 {
+                    return None;
+                }
+                Some(Guard { old_cur: old.cur, max: old.max })
+            }
+        }
+    }
+    impl Drop for Guard {
+        fn drop(&mut self) {
+            unsafe {
+                let back = Rlimit { cur: self.old_cur, max: self.max };
+                setrlimit(RLIMIT_FSIZE, &back);
+            }
+        }
+    }
+}
+#[cfg(not(target_os = "linux"))]
+mod fsize {
+    pub struct Guard;
+    impl Guard {
+        pub fn set(_p: u64) -> Option<Guard> {
+            None
+        }
+    }
+}
+
+#[derive(Clone, Copy, Debug)]
+enum PathTarget {
+    File,
+    Dir,
+    Full,
+    Limit(u64),
+}
+
+fn path_target_of(x: &Sx) -> Option<PathTarget> {
+    if x.is_id("file") {
+        return Some(PathTarget::File);
+    }
+    if x.is_id("dir") {
+        return Some(PathTarget::Dir);
+    }
+    if x.is_id("full") {
+        return Some(PathTarget::Full);
+    }
+    if x.tag()? == "limit" {
+        return Some(PathTarget::Limit(x.args().first()?.as_u64()?));
+    }
+    None
+}
+
+fn scratch_dir() -> std::path::PathBuf {
+    let d = std::env::temp_dir().join(format!("lvh-c19-{}", std::process::id()));
+    let _ = std::fs::create_dir_all(&d);
+    d
+}
+
+/// /dev/full present and behaving (a write fails)?
+fn dev_full_ok() -> bool {
+    match std::fs::OpenOptions::new().write(true).open("/dev/full") {
+        Ok(mut f) => f.write(b"x").is_err(),
+        Err(_) => false,
+    }
+}
+
+/// Err(reason) = the environment cannot provide this device (skip)
+fn path_run(base: &Target, full: &[u8], ref_content: &Option<Result<Sx, String>>, target: PathTarget) -> Result<Outcome, String> {
+    let mut t = base.clone();
+    let dir = scratch_dir();
+    let file = dir.join("out.pdf");
+    let _ = std::fs::remove_file(&file);
+    // what the device will take, the error it gives afterwards
+    let (r, content, room, dev_err): (std::io::Result<()>, Vec<u8>, usize, Option<ErrorKind>) = match target {
+        PathTarget::File => {
+            let r = t.save_path(&file);
+            let c = std::fs::read(&file).unwrap_or_default();
+            (r, c, usize::MAX, None)
+        }
+        PathTarget::Dir => {
+            let r = t.save_path(&dir);
+            (r, vec![], 0, Some(ErrorKind::IsADirectory))
+        }
+        PathTarget::Full => {
+            if !dev_full_ok() {
+                return Err("/dev/full is missing or accepts writes".into());
+            }
+            let r = t.save_path(std::path::Path::new("/dev/full"));
+            (r, vec![], 0, Some(ErrorKind::StorageFull))
+        }
+        PathTarget::Limit(p) => {
+            let r = {
+                let _g = match fsize::Guard::set(p) {
+                    Some(g) => g,
+                    None => return Err("RLIMIT_FSIZE cannot be set here".into()),
+                };
+                t.save_path(&file)
+            };
+            let c = std::fs::read(&file).unwrap_or_default();
+            (r, c, p.min(usize::MAX as u64) as usize, Some(ErrorKind::FileTooLarge))
+        }
+    };
+    let _ = std::fs::remove_file(&file);
+    let after = t.state_sx();
+    let max_id = t.doc().max_id;
+    let size = t.doc().trailer.get(b"Size").ok().and_then(|o| o.as_i64().ok()).unwrap_or(-1);
+    let mut verdict = None;
+    let mut fail = |s: String| {
+        if verdict.is_none() {
+            verdict = Some(s);
+        }
+    };
+    let device_failed = matches!(target, PathTarget::Dir) || room < full.len();
+    let is_prefix = content.len() <= full.len() && full[..content.len()] == content[..];
+    if !is_prefix {
+        fail(format!(
+            "save(path) to {:?}: the file content ({} bytes) is not a prefix of the complete output ({}), result {:?}",
+            target,
+            content.len(),
+            full.len(),
+            r.as_ref().map_err(|e| e.kind())
+        ));
+    }
+    match (&r, device_failed) {
+        (Ok(()), true) => fail(format!(
+            "save(path) to {:?} returned Ok but the file holds {} of {} bytes (the device refused the rest)",
+            target,
+            content.len(),
+            full.len()
+        )),
+        (Ok(()), false) => {
+            if content != full {
+                fail(format!("save(path) to {:?} returned Ok but the file holds {} of {} bytes", target, content.len(), full.len()));
+            }
+        }
+        (Err(e), true) => {
+            if Some(e.kind()) != dev_err {
+                fail(format!("save(path) to {:?}: the device failed with {:?} but save reported {:?}", target, dev_err, e.kind()));
+            }
+            if content.len() > room {
+                fail(format!("save(path) to {:?}: the file holds {} bytes, more than the device had room for", target, content.len()));
+            }
+        }
+        (Err(e), false) => fail(format!("save(path) to {:?}: the device never failed but save returned Err({:?})", target, e.kind())),
+    }
+    // a later save of the same document object to a healthy sink
+    let mut out2: Vec<u8> = vec![];
+    let r2 = t.save_to(&mut out2);
+    let resave_same = r2.is_ok() && out2 == full;
+    match r2 {
+        Err(e) => fail(format!("re-save to a healthy sink failed: {:?}", e.kind())),
+        Ok(()) => {
+            if ref_content.is_some() && Some(content_of(&out2)) != *ref_content {
+                fail(format!(
+                    "re-save after {} save(path) does not load back to the same content",
+                    if r.is_ok() { "a successful" } else { "a failed" }
+                ));
+            }
+        }
+    }
+    Ok(Outcome { rc: rc_sx(&r), delivered: content, state: after, max_id, size, resave_same, verdict })
+}
+
 fn main() {
     lvh::drive(|x| {
         let a = x.args();
-        if a.len() != 7 {
+        if a.len() != 7 && a.len() != 8 {
             return (Sx::id("badcase"), "skip".into());
         }
         let prev = a[2].as_bytes().unwrap_or_default();
-        let base = match build(&a[0], &a[1], &prev) {
+        let base = match build(&a[0], &a[1], &prev, a.get(7)) {
             Some(t) => t,
             None => return (Sx::id("badcase"), "skip".into()),
         };
@@ -357,10 +621,20 @@ fn main() {
                 let key = b"trailer\n<<";
                 full.windows(key.len()).rposition(|w| w == key)
             };
+            let mut rec = RecordingSink { data: vec![], sizes: vec![] };
+            let r1 = base.clone().save_to(&mut rec);
+            let sizes: Vec<Sx> = if r1.is_ok() && rec.data == full { rec.sizes.iter().map(|n| Sx::num(*n as i64)).collect() } else { vec![] };
             return (
                 Sx::tagged(
                     "ref",
-                    vec![rc_sx(&r0), Sx::bytes(&full), base.state_sx(), Sx::tagged("ids", ids), Sx::num(cut.map(|c| c as i64).unwrap_or(-1))],
+                    vec![
+                        rc_sx(&r0),
+                        Sx::bytes(&full),
+                        base.state_sx(),
+                        Sx::tagged("ids", ids),
+                        Sx::num(cut.map(|c| c as i64).unwrap_or(-1)),
+                        Sx::tagged("sizes", sizes),
+                    ],
                 ),
                 "skip".into(),
             );
@@ -369,7 +643,7 @@ fn main() {
             return (Sx::tagged("noref", vec![rc_sx(&r0)]), "skip".into());
         }
         let mut verdict = "ok".to_string();
-        if a[3].as_bytes().map(|f| f != full).unwrap_or(true) {
+        if bytes_of_parts(&a[3]).map(|f| f != full).unwrap_or(true) {
             verdict = "FAIL the output for a perfect sink differs from the reference pass".into();
         }
         // a second perfect save of a fresh clone must give the same bytes (determinism)
@@ -422,7 +696,46 @@ fn main() {
                 }
                 (Sx::tagged("sweep", out), verdict)
             }
+            Some("path") => {
+                let ja = job.args();
+                let target = match ja.first().and_then(path_target_of) {
+                    Some(t) => t,
+                    None => return (Sx::id("badcase"), "skip".into()),
+                };
+                match path_run(&base, &full, &ref_content, target) {
+                    Err(why) => (Sx::tagged("nodevice", vec![Sx::bytes(why.as_bytes())]), "skip".into()),
+                    Ok(o) => {
+                        if let Some(v) = o.verdict {
+                            verdict = format!("FAIL {}", v);
+                        }
+                        (Sx::tagged("pres", vec![o.rc, Sx::bytes(&o.delivered), o.state, Sx::boolean(o.resave_same)]), verdict)
+                    }
+                }
+            }
+            Some("psweep") => {
+                let ja = job.args();
+                let ps: Vec<u64> = match ja.get(1) {
+                    Some(at) if at.tag() == Some("at") => at.args().iter().filter_map(|v| v.as_u64()).collect(),
+                    _ => return (Sx::id("badcase"), "skip".into()),
+                };
+                let mut out = vec![];
+                for p in ps {
+                    match path_run(&base, &full, &ref_content, PathTarget::Limit(p)) {
+                        Err(why) => return (Sx::tagged("nodevice", vec![Sx::bytes(why.as_bytes())]), "skip".into()),
+                        Ok(o) => {
+                            if let Some(v) = o.verdict {
+                                if verdict == "ok" {
+                                    verdict = format!("FAIL {}", v);
+                                }
+                            }
+                            out.push(Sx::L(vec![o.rc, Sx::num(o.delivered.len()), Sx::num(o.max_id), Sx::num(o.size), Sx::boolean(o.resave_same)]));
+                        }
+                    }
+                }
+                (Sx::tagged("psweep", out), verdict)
+            }
             _ => (Sx::id("badcase"), "skip".into()),
         }
     });
+    let _ = std::fs::remove_dir_all(std::env::temp_dir().join(format!("lvh-c19-{}", std::process::id())));
 }
